@@ -1314,6 +1314,116 @@ Prepare(const Scenario &scn, const Config &cfg)
   G.viols.clear();
   G.fatal = false;
 }
+
+/* Open-addressing state cache: 10 bytes per slot instead of ~50 for std::unordered_map, and a hard ceiling
+ * (VERIF_CACHE_SLOTS_LOG2, default 26 = 64 Mi slots = 640 MiB per worker).  When the ceiling is reached new
+ * states are simply no longer remembered: pruning needs a hit, so the search stays complete and only loses
+ * sharing (reported as cache_saturated).  Sixteen workers with unbounded maps exhausted the 62 GB of the
+ * sandbox in a thorough run; the OOM killer then ended a child (INTERNAL-ERROR). */
+class StateCache
+{
+ public:
+  StateCache()
+  {
+    const char *e = getenv("VERIF_CACHE_SLOTS_LOG2");
+    int lg = e ? atoi(e) : 26;
+    if (lg < 12) lg = 12;
+    if (lg > 30) lg = 30;
+    max_slots_ = size_t{1} << lg;
+    Alloc(size_t{1} << 12);
+  }
+  ~StateCache() { Free(); }
+  StateCache(const StateCache &) = delete;
+  StateCache &operator=(const StateCache &) = delete;
+
+  // returns pointer to the stored cost or nullptr
+  int16_t *
+  Find(uint64_t h)
+  {
+    size_t i = Mix(h) & (slots_ - 1);
+    while (keys_[i] != 0) {
+      if (keys_[i] == h) return &costs_[i];
+      i = (i + 1) & (slots_ - 1);
+    }
+    return nullptr;
+  }
+  void
+  Put(uint64_t h, int16_t cost)
+  {
+    if (int16_t *c = Find(h)) {
+      *c = cost;
+      return;
+    }
+    if ((size_ + 1) * 4 > slots_ * 3) {
+      if (slots_ >= max_slots_ || !Grow()) {
+        saturated_ = true;
+        return;
+      }
+    }
+    Insert(h, cost);
+  }
+  size_t size() const { return size_; }
+  bool saturated() const { return saturated_; }
+
+ private:
+  static size_t Mix(uint64_t h) { return static_cast<size_t>((h ^ (h >> 29)) * 0x9E3779B97F4A7C15ULL >> 17); }
+  void
+  Insert(uint64_t h, int16_t cost)
+  {
+    size_t i = Mix(h) & (slots_ - 1);
+    while (keys_[i] != 0) i = (i + 1) & (slots_ - 1);
+    keys_[i] = h;
+    costs_[i] = cost;
+    ++size_;
+  }
+  bool
+  Alloc(size_t n)
+  {
+    void *k = mmap(nullptr, n * sizeof(uint64_t), PROT_READ | PROT_WRITE, MAP_PRIVATE | MAP_ANONYMOUS, -1, 0);
+    if (k == MAP_FAILED) return false;
+    void *c = mmap(nullptr, n * sizeof(int16_t), PROT_READ | PROT_WRITE, MAP_PRIVATE | MAP_ANONYMOUS, -1, 0);
+    if (c == MAP_FAILED) {
+      munmap(k, n * sizeof(uint64_t));
+      return false;
+    }
+    keys_ = static_cast<uint64_t *>(k);
+    costs_ = static_cast<int16_t *>(c);
+    slots_ = n;
+    size_ = 0;
+    return true;
+  }
+  void
+  Free()
+  {
+    if (keys_ != nullptr) {
+      munmap(keys_, slots_ * sizeof(uint64_t));
+      munmap(costs_, slots_ * sizeof(int16_t));
+      keys_ = nullptr;
+    }
+  }
+  bool
+  Grow()
+  {
+    uint64_t *ok = keys_;
+    int16_t *oc = costs_;
+    const size_t on = slots_;
+    if (!Alloc(on * 2)) {
+      keys_ = ok;
+      costs_ = oc;
+      slots_ = on;
+      return false;
+    }
+    for (size_t i = 0; i < on; ++i)
+      if (ok[i] != 0) Insert(ok[i], oc[i]);
+    munmap(ok, on * sizeof(uint64_t));
+    munmap(oc, on * sizeof(int16_t));
+    return true;
+  }
+  uint64_t *keys_ = nullptr;
+  int16_t *costs_ = nullptr;
+  size_t slots_ = 0, size_ = 0, max_slots_ = 0;
+  bool saturated_ = false;
+};
 }  // namespace
 
 Result
@@ -1338,7 +1448,7 @@ Explore(const Scenario &scn, const Config &cfg)
   bool out_of_budget = false;
   bool stop_all = false;
   for (int bound : bounds) {
-    std::unordered_map<uint64_t, int16_t> cache;
+    StateCache cache;
     std::vector<std::vector<uint8_t>> stack;
     stack.emplace_back();
     G.hashing = cfg.cache;
@@ -1377,12 +1487,12 @@ Explore(const Scenario &scn, const Config &cfg)
         if ((cp.enabled & (cp.enabled - 1)) == 0) continue;
         ++res.choice_points;
         if (cfg.cache && cp.hash != 0) {
-          auto it = cache.find(cp.hash);
-          if (it != cache.end() && it->second <= cp.cost_before) {
+          const int16_t *known = cache.Find(cp.hash);
+          if (known != nullptr && *known <= cp.cost_before) {
             pruned = true;
             break;
           }
-          cache[cp.hash] = cp.cost_before;
+          cache.Put(cp.hash, static_cast<int16_t>(cp.cost_before));
         }
         for (int alt = 0; alt < 16; ++alt) {
           if (!((cp.enabled >> alt) & 1U) || alt == cp.chosen) continue;
@@ -1403,6 +1513,7 @@ Explore(const Scenario &scn, const Config &cfg)
       if (pruned) ++res.pruned;
     }
     res.states += cache.size();
+    if (cache.saturated()) res.cache_saturated = true;
     if (stop_all) break;
     if (complete) {
       res.bound_completed = cfg.bound < 0 ? -1 : bound;
@@ -1522,6 +1633,7 @@ ResultToJson(const Result &r)
   num("blocked_execs", static_cast<double>(r.blocked_execs));
   num("max_trace", static_cast<double>(r.max_trace));
   num("abandoned", static_cast<double>(r.abandoned));
+  num("cache_saturated", r.cache_saturated ? 1 : 0);
   num("bound_completed", r.bound_completed);
   s += std::string("\"exhaustive\":") + (r.exhaustive ? "true" : "false") + ",";
   num("wall_s", r.wall_s);
